@@ -277,6 +277,10 @@ def roundtrip_checks(tier):
                         # one time step selected: the time coordinate is a scalar and is still saved with EMS units
                         ds = ds.isel({tdim: 1})
                     src = os.path.join(work, f'{conv}-{k}-{int(scalar_time)}-src.nc')
+                    # the source has no fill-value attribute on variables that do not declare one (also coordinates)
+                    for n, v in ds.variables.items():
+                        if v.dtype.kind in 'fcmM' and '_FillValue' not in v.encoding and '_FillValue' not in v.attrs:
+                            v.encoding['_FillValue'] = None
                     ds.to_netcdf(src)
                     orig = emsarray.open_dataset(src)
                     cls = type(orig.ems)
@@ -314,6 +318,31 @@ def roundtrip_checks(tier):
                     orig.close()
                     back.close()
                     notes.append(case)
+        # a mesh built in memory (one-based integer tables, fill value kept as an attribute) saved through the convention
+        from harness import geomref
+
+        class _Ctx:
+            def check(self, cond, label, soft=False):
+                if not cond:
+                    V('roundtrip:ugrid:in-memory', label, 'in-memory one-based mesh with _FillValue attribute')
+        for fv in (999999, 0, -1):
+            mem = builders.ugrid('tqp', fill='attr', start_index=1, fill_value=fv, supply=('edge_node',),
+                                 data_vars={'eta': (('record', 'nface'), numpy.arange(6.0).reshape(2, 3))})
+            try:
+                ref = geomref.check(_Ctx(), mem, mem.ems)
+            except Exception as e:
+                V('roundtrip:ugrid:in-memory', 'the polygons of the source dataset can be built', f'{type(e).__name__}: {e}', dict(fill=fv))
+                continue
+            out = os.path.join(work, f'ugrid-mem-{fv}.nc')
+            try:
+                mem.ems.to_netcdf(out)
+            except Exception as e:
+                V('roundtrip:ugrid:in-memory', 'saving through the convention succeeds', f'{type(e).__name__}: {e}', dict(fill=fv))
+                continue
+            back = emsarray.open_dataset(out)
+            if not all((a is None and b is None) or (a is not None and b is not None and a.equals(b)) for a, b in zip(ref, back.ems.polygons)):
+                V('roundtrip:ugrid:in-memory', 'identical polygons after the round trip', f'fill value {fv}')
+            back.close()
     finally:
         shutil.rmtree(work, ignore_errors=True)
     return viol, notes
